@@ -74,8 +74,7 @@ def _place_paths(ctx, ci, notes_factory, summaries=None):
     return fi, (cb, ln, d), explore(mk_interp, runit)
 
 
-def rule_place(ctx, ci):
-    R = "R-C13-1"
+def rule_place(ctx, ci, R="R-C13-1"):
     nc = stub(ctx.repo, NC, "NoteContainer", name="content")
     fi, (cb, ln, d), paths = _place_paths(ctx, ci, lambda: nc)
     ok_acc, ok_ref, why_acc, why_ref = False, False, "no accepting path", "no refusing path"
@@ -264,9 +263,8 @@ def rule_slots(ctx, ci):
     ctx.check(ok, R, "empty", f.where(), "Bar.empty()", "empty() must reset entries and the current beat together")
 
 
-def rule_gate(ctx, ci):
+def rule_gate(ctx, ci, R="R-C13-6"):
     """The accepting comparison decides like exact rational arithmetic."""
-    R = "R-C13-6"
     nc = stub(ctx.repo, NC, "NoteContainer", name="content")
     fi, (cb, ln, d), paths = _place_paths(ctx, ci, lambda: nc)
     total = RatFun(cb.num * d.num + d.den * cb.den, cb.den * d.num)
